@@ -107,6 +107,10 @@ SPECIAL_NUMS = ['0', '-0', '1', '-1', '2147483647', '2147483648', '-2147483648',
 
 def gen_number_literal(rng):
     r = rng.random()
+    if r < 0.05:
+        return '%s%se%s%d' % (rng.choice(['', '-']), rng.choice(['1', '9.999999999999999', '1.0000000000000002', '5', '2.5']), rng.choice(['', '+', '-']), rng.randrange(0, 331))
+    if r < 0.09:
+        return '%d.%s' % (rng.choice([2147483647, -2147483648, 2147483646, -2147483649, 2147483648, 0, -1]), rng.choice(['5', '0', '000000001', '999999999', '25']))
     if r < 0.35:
         return rng.choice(SPECIAL_NUMS)
     if r < 0.45:
